@@ -155,7 +155,8 @@ def legacy_versions(fmt):
     cur = tuple(int(x) for x in current_version().split("."))
     vs = [v for v in dict.fromkeys(vs) if L.vt(v) < cur]
     if fmt == "treeinfo":
-        vs = [v for v in vs if v != "0.0"] + [NO_HEADER]
+        vs = [v for v in vs if v != "0.0"]
+        vs = vs[:len(vs) // 2] + [NO_HEADER] + vs[len(vs) // 2:] + [NO_HEADER]       # files without a header: twice per round
     return vs
 
 
@@ -286,11 +287,13 @@ def legacy_special_mods(fmt, doc, ver, rng, T):
         if t < (0, 3):
             M("legacy-id-without-date", S("Xy-1", "payload", "compose", "id"))
             M("legacy-id-not-a-string", S(7, "payload", "compose", "id"))
+            M("legacy-id-unknown-type-suffix", S("Xy-1-20200101.x.3", "payload", "compose", "id"))
             M("legacy-compose-type-ignored", S("floppy", "payload", "compose", "type"), expect="accept")
         if t <= (0, 3):
             M("legacy-product-section-renamed", {"path": ["payload", "product"], "rename": "release"})
     if fmt in ("images", "rpms", "modules", "extra_files") and t < (0, 3):
         M("legacy-id-without-date", S("Xy-1", "payload", "compose", "id"))
+        M("legacy-id-unknown-type-suffix", S("Xy-1-20200101.x.3", "payload", "compose", "id"))
         M("legacy-compose-type-ignored", S("floppy", "payload", "compose", "type"), expect="accept")
     if fmt == "images" and t <= (1, 1):
         for v, arches in doc["payload"]["images"].items():
@@ -851,7 +854,7 @@ class C07(Prop):
             kind = "special"
         if kind == "special":
             sp = legacy_special_mods(fmt, ldoc, ver, rng, T)
-            if fmt in JSON_FORMATS:
+            if fmt in JSON_FORMATS and not (sp and rng.random() < 0.6):       # what only the older readers do comes first
                 old_src = fmt == "images" and L.vt(ver) <= (1, 1)       # at <= 1.1 a cell keyed `src` is legal: its images are re-filed
                 sp += [([m], tag, "reject") for m, tag in special_mods(fmt, ldoc, rng, T) if not (old_src and tag == "cell-arch:src")]
             if fmt == "composeinfo" and L.vt(ver) >= (1, 0) and rng.random() < 0.3:
